@@ -1369,7 +1369,11 @@ impl TryFrom<&str> for AddressAssignment {
 
         if let Some(cap) = DIRECT_ADDRESS.captures(value) {
             let location_prefix = LocationPrefix::try_from(&cap[1])?;
-            let size_prefix = SizePrefix::try_from(&cap[2])?;
+            // The size prefix is optional (absent means a single bit)
+            let size_prefix = match cap.get(2) {
+                Some(size) => SizePrefix::try_from(size.as_str())?,
+                None => SizePrefix::Nil,
+            };
             let pos: Vec<u32> = cap[3]
                 .split('.')
                 .map(|v| v.parse::<u32>().unwrap())
